@@ -10,6 +10,23 @@ CHECKS = {
    technique="Coq proof (lia) over a model regenerated from the source by a translator + differential run of class vs model",
    ref="DESIGN.md section 6 C19"),
 }
+CHECKS.update({
+ "C07": dict(
+   text="Theorems C07_exact (resolution succeeds iff next links equal, neither side empty, touched key sets disjoint, minimum not raised), C07_result (result = original with both change sets applied, same link, sorted, non-empty), C07_merged_unique, C07_no_invention, C07_refusal (otherwise a conflict, never reason 10, never another outcome), C07_tree_level, proved for all sorted leaf states over Z keys and any value type with decidable equality, about a literal model of bucket_merge/_p_resolveConflict. The model is compared with the C and the Python implementation (results, reason codes and the three cursor positions) on every triple over a small universe and on random larger triples, several families, mappings and sets, tree-level wrappers and malformed states.",
+   note="Trusted: Coq kernel; hand-written model Model/Merge.v tied by the correspondence of this run; keys modelled as Z (comparison-only algorithm); value equality assumed decidable and reflexive (no NaN). Print Assumptions: closed.",
+   technique="Coq proof (induction on the merge walk) about a hand-written model + exhaustive/random differential correspondence with C and Python, evaluated by vm_compute",
+   ref="DESIGN.md section 6 C07"),
+ "C10": dict(
+   text="Theorems C10_walk (the c1/c12/c2 merge walk over strictly ascending streams yields exactly the selected keys, strictly ascending), C10_adapt (an arbitrary iterable is adapted to a sorted duplicate-free stream with the same elements), C10_union / C10_intersection / C10_difference (mathematical result, kind and values of the first operand kept) and C10_none (None table), for all operands; model compared with C and Python on operand-kind x key-relation grids in many families; operators | & - ^ and in-place forms checked against python set algebra.",
+   note="Trusted: Coq kernel; Model/SetOps.v tied by correspondence; keys as Z. The ^ operator is only exercised with a Set/TreeSet on the left (documented API). Plain lists mixing None and ints are not generated (python cannot sort them). Print Assumptions: closed.",
+   technique="Coq proof about a hand-written model of set_operation + differential correspondence with C and Python",
+   ref="DESIGN.md section 6 C10"),
+ "C12": dict(
+   text="Theorems C12_wunion_map, C12_winter_map (keys = union/intersection, value = v1*w1+v2*w2 with absent=0 and set member=1, including the operand swap), C12_both_sets (plain set, weight 1 resp. w1+w2), C12_none, and C12_no_overflow (the C flavour, computing in the wrapped value type, equals the exact formula whenever no product or sum leaves the type). Model (with the value type's wrap-around for C) compared with both implementations on all numeric-valued families; overflowing inputs are a separate stream and are recorded as known findings F10a/F10b.",
+   note="Trusted: Coq kernel; Model/SetOps.v tied by correspondence; float-valued families exercised only where float32 arithmetic is exact. Print Assumptions: closed.",
+   technique="Coq proof about a hand-written model of the weighted merge + differential correspondence with C and Python",
+   ref="DESIGN.md section 6 C12"),
+})
 NOT_YET = {}
 
 def main():
